@@ -80,6 +80,10 @@ func (t *tcpTransport) SetEncryption(ctx context.Context, e SessionEncryption) e
 		return errors.New("cannot downgrade from tls to none encryption")
 	}
 
+	if e != SessionEncryptionTLS {
+		return fmt.Errorf("encryption '%v' is not supported", e)
+	}
+
 	if e == SessionEncryptionTLS && t.TLSConfig == nil {
 		return errors.New("tls config must be defined")
 	}
